@@ -1,3 +1,244 @@
+/-
+C13 — Proposed takeoff time matches the first crossing of the takeoff altitude.
+
+Theorems about the model `Sb.Stats` of the statistics pass, for EVERY list of segments and every target:
+the reported crossing is the first touching point of the first segment that touches at all
+(`first_crossing`), infinity exactly when no segment touches or the climb time is not finite
+(`takeoff_infinite_iff`), and `E - T` otherwise — relative to a root oracle `ρ` that meets `RootSpec`
+("`none` means no solution in [0,1]; `some u` is the leftmost solution").  `RootSpec` is discharged exactly for
+constant and linear altitude (`touchesLinear_spec`: the model of `sb_i_poly_touches_1d/2d`); for curved altitude
+it is what the correspondence run checks of the implementation, within the calibrated tolerance (DESIGN.md C13).
+-/
+import Mathlib.Tactic.Ring
+import Mathlib.Tactic.Linarith
+import Mathlib.Tactic.FieldSimp
+import Mathlib.Algebra.Order.Field.Rat
+import Mathlib.Algebra.Order.Field.Basic
+import Mathlib.Tactic.Positivity
 import Sb.Model.Stats
+
 namespace Sb.C13
+open Sb Sb.Poly Sb.Stats
+
+/-- what the pass needs of `sb_poly_touches` on a class `C` of altitude polynomials -/
+structure RootSpec (ρ : Touch) (C : Poly → Prop) : Prop where
+  none_means : ∀ p v, C p → ρ p v = none → ∀ u, 0 ≤ u → u ≤ 1 → eval p u ≠ v
+  some_first : ∀ p v u, C p → ρ p v = some u →
+    0 ≤ u ∧ u ≤ 1 ∧ eval p u = v ∧ ∀ w, 0 ≤ w → w < u → eval p w ≠ v
+
+theorem firstTouch_none (ρ : Touch) (target : Rat) (segs : List ZSeg) :
+    firstTouch ρ target segs = none ↔ ∀ s ∈ segs, ρ s.z target = none := by
+  induction segs with
+  | nil => simp [firstTouch]
+  | cons s rest ih =>
+    simp only [firstTouch, List.mem_cons, forall_eq_or_imp]
+    cases h : ρ s.z target with
+    | none => simp [ih]
+    | some u => simp
+
+/-- "first hit wins": the reported pair is the first segment that touches, with what the oracle says there -/
+theorem firstTouch_some (ρ : Touch) (target : Rat) (segs : List ZSeg) (s : ZSeg) (u : Rat)
+    (h : firstTouch ρ target segs = some (s, u)) :
+    ∃ pre post, segs = pre ++ s :: post ∧ (∀ s' ∈ pre, ρ s'.z target = none) ∧ ρ s.z target = some u := by
+  induction segs with
+  | nil => simp [firstTouch] at h
+  | cons a rest ih =>
+    simp only [firstTouch] at h
+    cases ha : ρ a.z target with
+    | none =>
+      rw [ha] at h
+      obtain ⟨pre, post, h1, h2, h3⟩ := ih h
+      refine ⟨a :: pre, post, by rw [h1]; rfl, ?_, h3⟩
+      intro s' hs'
+      rcases List.mem_cons.mp hs' with rfl | hm
+      · exact ha
+      · exact h2 s' hm
+    | some w =>
+      rw [ha] at h
+      simp only [Option.some.injEq, Prod.mk.injEq] at h
+      obtain ⟨rfl, rfl⟩ := h
+      exact ⟨[], rest, rfl, by simp, ha⟩
+
+/-- **First crossing.**  With an oracle meeting `RootSpec` on the altitude polynomials of the trajectory, the reported
+crossing lies in the first segment whose altitude takes the target value at all, at the first local time it does:
+no earlier segment and no earlier local time in that segment reaches the target. -/
+theorem first_crossing (ρ : Touch) (C : Poly → Prop) (hρ : RootSpec ρ C) (target : Rat) (segs : List ZSeg)
+    (hC : ∀ s ∈ segs, C s.z) (s : ZSeg) (u : Rat) (h : firstTouch ρ target segs = some (s, u)) :
+    ∃ pre post, segs = pre ++ s :: post ∧
+      (∀ s' ∈ pre, ∀ w, 0 ≤ w → w ≤ 1 → eval s'.z w ≠ target) ∧
+      0 ≤ u ∧ u ≤ 1 ∧ eval s.z u = target ∧ (∀ w, 0 ≤ w → w < u → eval s.z w ≠ target) := by
+  obtain ⟨pre, post, h1, h2, h3⟩ := firstTouch_some ρ target segs s u h
+  refine ⟨pre, post, h1, ?_, ?_⟩
+  · intro s' hs' w hw0 hw1
+    exact hρ.none_means s'.z target (hC s' (by rw [h1]; simp [hs'])) (h2 s' hs') w hw0 hw1
+  · exact hρ.some_first s.z target u (hC s (by rw [h1]; simp)) h3
+
+/-- **Never reached.**  Infinity from the segment loop means that no segment's altitude takes the target value -/
+theorem never_reached (ρ : Touch) (C : Poly → Prop) (hρ : RootSpec ρ C) (target : Rat) (segs : List ZSeg)
+    (hC : ∀ s ∈ segs, C s.z) (h : earliestAbove ρ segs target = none) :
+    ∀ s ∈ segs, ∀ w, 0 ≤ w → w ≤ 1 → eval s.z w ≠ target := by
+  have hn : firstTouch ρ target segs = none := by
+    unfold earliestAbove at h
+    cases hf : firstTouch ρ target segs with
+    | none => rfl
+    | some p => rw [hf] at h; simp at h
+  intro s hs w hw0 hw1
+  exact hρ.none_means s.z target (hC s hs) ((firstTouch_none ρ target segs).mp hn s hs) w hw0 hw1
+
+/-- the reported time is the start of that segment plus the local time scaled by its duration, hence inside it -/
+theorem earliest_in_segment (ρ : Touch) (C : Poly → Prop) (hρ : RootSpec ρ C) (target : Rat) (segs : List ZSeg)
+    (hC : ∀ s ∈ segs, C s.z) (e : Rat) (h : earliestAbove ρ segs target = some e) :
+    ∃ s ∈ segs, ∃ u, 0 ≤ u ∧ u ≤ 1 ∧ e = s.startSec + u * s.durSec ∧ s.startSec ≤ e ∧ e ≤ s.endSec := by
+  unfold earliestAbove at h
+  cases hf : firstTouch ρ target segs with
+  | none => rw [hf] at h; simp at h
+  | some p =>
+    obtain ⟨s, u⟩ := p
+    rw [hf] at h
+    simp only [Option.map_some, Option.some.injEq] at h
+    obtain ⟨pre, post, h1, _, hu0, hu1, _, _⟩ := first_crossing ρ C hρ target segs hC s u hf
+    refine ⟨s, by rw [h1]; simp, u, hu0, hu1, h.symm, ?_, ?_⟩
+    · rw [← h]
+      have : 0 ≤ u * s.durSec := mul_nonneg hu0 (by unfold ZSeg.durSec; positivity)
+      linarith
+    · rw [← h]
+      have hd : 0 ≤ s.durSec := by unfold ZSeg.durSec; positivity
+      have : u * s.durSec ≤ s.durSec := by nlinarith
+      have he : s.endSec = s.startSec + s.durSec := by
+        unfold ZSeg.endSec ZSeg.startSec ZSeg.durSec; push_cast; ring
+      rw [he]; linarith
+
+/-- **E - T, and infinity exactly when the altitude is never reached or the climb time is not finite** -/
+theorem takeoff_infinite_iff (ρ : Touch) (segs : List ZSeg) (z0 h : Rat) (climb : Option Rat) :
+    takeoffTime ρ segs z0 h climb = none ↔ (earliestAbove ρ segs (z0 + h) = none ∨ climb = none) := by
+  unfold takeoffTime
+  cases earliestAbove ρ segs (z0 + h) <;> cases climb <;> simp
+
+theorem takeoff_value (ρ : Touch) (segs : List ZSeg) (z0 h e t : Rat)
+    (he : earliestAbove ρ segs (z0 + h) = some e) : takeoffTime ρ segs z0 h (some t) = some (e - t) := by
+  unfold takeoffTime; rw [he]
+
+/-- the parameter screening: negative or non-finite ascent, non-positive or non-finite speed, non-positive
+acceleration are rejected; an infinite acceleration is accepted -/
+theorem params_screening :
+    (∀ v a q, q < 0 → takeoffParamsValid (.fin q) v a = false) ∧
+    (∀ v a, takeoffParamsValid .pinf v a = false ∧ takeoffParamsValid .nan v a = false ∧ takeoffParamsValid .ninf v a = false) ∧
+    (∀ h a q, q ≤ 0 → takeoffParamsValid h (.fin q) a = false) ∧
+    (∀ h a, takeoffParamsValid h .pinf a = false ∧ takeoffParamsValid h .nan a = false ∧ takeoffParamsValid h .ninf a = false) ∧
+    (∀ h v q, q ≤ 0 → takeoffParamsValid h v (.fin q) = false) ∧
+    (∀ h v, takeoffParamsValid h v .ninf = false) ∧
+    (∀ hq vq, 0 ≤ hq → 0 < vq → takeoffParamsValid (.fin hq) (.fin vq) .pinf = true) ∧
+    (∀ hq vq aq, 0 ≤ hq → 0 < vq → 0 < aq → takeoffParamsValid (.fin hq) (.fin vq) (.fin aq) = true) := by
+  refine ⟨?_, ?_, ?_, ?_, ?_, ?_, ?_, ?_⟩
+  · intro v a q hq; simp [takeoffParamsValid]; intros; linarith
+  · intro v a; simp [takeoffParamsValid]
+  · intro h a q hq; simp [takeoffParamsValid]; intros; linarith
+  · intro h a; simp [takeoffParamsValid]
+  · intro h v q hq; simp [takeoffParamsValid]; intros; linarith
+  · intro h v; simp [takeoffParamsValid]
+  · intro hq vq h1 h2; simp [takeoffParamsValid, h1, h2]
+  · intro hq vq aq h1 h2 h3; simp [takeoffParamsValid, h1, h2, h3]
+
+/-! ### the oracle for constant and linear altitude is exact -/
+
+theorem eval_two (b a u : Rat) : eval [b, a] u = a * u + b := by simp [eval]
+
+/-- `sb_i_poly_touches_1d/2d` (exact arithmetic) meet `RootSpec` on polynomials with at most two coefficients:
+for constant and linear altitude the takeoff theorems hold of the code's own algorithm, with no oracle left -/
+theorem touchesLinear_spec : RootSpec touchesLinear (fun p => p.length ≤ 2) := by
+  constructor
+  · intro p v hp h u hu0 hu1
+    rcases p with _ | ⟨b, _ | ⟨a, _ | ⟨c, rest⟩⟩⟩
+    · simp only [touchesLinear] at h
+      split at h
+      · cases h
+      · rename_i hv; simp [eval]; exact fun h' => hv h'.symm
+    · simp only [touchesLinear] at h
+      split at h
+      · cases h
+      · rename_i hv; simp [eval]; exact fun h' => hv h'.symm
+    · rw [eval_two]
+      simp only [touchesLinear] at h
+      by_cases ha : a = 0
+      · rw [if_pos ha] at h
+        split at h
+        · cases h
+        · rename_i hv; rw [ha]; intro h'; apply hv; linarith
+      · rw [if_neg ha] at h
+        split at h
+        · cases h
+        · split at h
+          · cases h
+          · rename_i h1 h2
+            intro heq
+            rcases lt_or_gt_of_ne ha with hneg | hpos
+            · apply h2
+              refine ⟨hneg, ?_, ?_⟩ <;> nlinarith
+            · apply h1
+              refine ⟨hpos, ?_, ?_⟩ <;> nlinarith
+    · simp at hp
+  · intro p v u hp h
+    rcases p with _ | ⟨b, _ | ⟨a, _ | ⟨c, rest⟩⟩⟩
+    · simp only [touchesLinear] at h
+      split at h
+      · rename_i hv
+        simp only [Option.some.injEq] at h; subst h
+        refine ⟨le_refl 0, by norm_num, by simp [eval, hv], ?_⟩
+        intro w hw0 hw; linarith
+      · cases h
+    · simp only [touchesLinear] at h
+      split at h
+      · rename_i hv
+        simp only [Option.some.injEq] at h; subst h
+        refine ⟨le_refl 0, by norm_num, by simp [eval, hv], ?_⟩
+        intro w hw0 hw; linarith
+      · cases h
+    · simp only [touchesLinear] at h
+      by_cases ha : a = 0
+      · rw [if_pos ha] at h
+        split at h
+        · rename_i hv
+          simp only [Option.some.injEq] at h; subst h
+          refine ⟨le_refl 0, by norm_num, by rw [eval_two, ha, hv]; ring, ?_⟩
+          intro w hw0 hw; linarith
+        · cases h
+      · rw [if_neg ha] at h
+        split at h
+        · rename_i h1
+          obtain ⟨hpos, hv0, hv1⟩ := h1
+          simp only [Option.some.injEq] at h; subst h
+          have hane : a ≠ 0 := ha
+          refine ⟨div_nonneg (by linarith) (le_of_lt hpos), ?_, ?_, ?_⟩
+          · rw [div_le_one hpos]; linarith
+          · rw [eval_two]; field_simp; ring
+          · intro w hw0 hw
+            rw [eval_two]
+            intro heq
+            have : w = (v - b) / a := by field_simp; linarith
+            linarith
+        · split at h
+          · rename_i h1 h2
+            obtain ⟨hneg, hv0, hv1⟩ := h2
+            simp only [Option.some.injEq] at h; subst h
+            refine ⟨?_, ?_, ?_, ?_⟩
+            · exact div_nonneg_of_nonpos (by linarith) (le_of_lt hneg)
+            · rw [div_le_one_of_neg hneg]; linarith
+            · rw [eval_two]; field_simp; ring
+            · intro w hw0 hw
+              rw [eval_two]
+              intro heq
+              have : w = (v - b) / a := by field_simp; linarith
+              linarith
+          · cases h
+    · simp at hp
+
+/-- non-vacuity: a two-segment climb 0 → 1000 → 3000 and the target 2000: the crossing is reported in the second
+segment at local time 1/2 -/
+example :
+    (firstTouch touchesLinear 2000
+      [{ startMs := 0, durMs := 1000, z := [0, 1000], x0 := 0, y0 := 0, z0 := 0, xe := 0, ye := 0, ze := 1000 },
+       { startMs := 1000, durMs := 4000, z := [1000, 2000], x0 := 0, y0 := 0, z0 := 1000, xe := 0, ye := 0, ze := 3000 }]
+      ).map (fun p => (p.1.startMs, p.2)) = some (1000, 1 / 2) := by
+  decide +kernel
+
 end Sb.C13
